@@ -28,13 +28,15 @@ class C02(Prop):
     RULE = ("cases: documents drawn from a recursive grammar (all scalar kinds, literals from a boundary pool and a "
             "literal grammar, strings over ASCII/control/2-,3-,4-byte code points, duplicate keys, chains up to "
             "CJSON_NESTING_LIMIT) rendered as RFC 8259 text with drawn whitespace, escape spelling, hex case, BOM and "
-            "framing, then parsed through 9 entry-point/flag/terminator variants; non-trivial = the text contains at "
+            "framing, then parsed through 9 entry-point/flag/terminator variants; plus an EXHAUSTIVE sweep in C of every BMP \\uXXXX escape "
+            "(both hex cases, as value and as key) and of surrogate pairs (all 2^20 in the thorough tier; row boundaries and a 1/16 sample in "
+            "the quick tier) against an independent UTF-8 encoder; non-trivial = the text contains at "
             "least one of: escape, non-ASCII byte, fraction/exponent, depth >= 2, duplicate key, BOM; distinct = by "
             "hash of the rendered text")
     ASSUMPTIONS = ["expected doubles come from Python float() (correctly rounded), independent of the C library's strtod",
                    "only the C locale exists in this sandbox"]
     REQUIRED_CLASSES = ["escape", "nonascii", "fraction_or_exponent", "depth>=2", "duplicate_key", "bom",
-                        "depth=limit", "surrogate_pair"]
+                        "depth=limit", "surrogate_pair", "escape_sweep_code_points"]
 
     def budget(self, tier):
         return {"workers": 14, "examples": 1200 if tier == "quick" else 12000}
@@ -59,6 +61,25 @@ class C02(Prop):
             "style": st.sampled_from([None, None, "raw", "u", "short"]),
         })
 
+    def prelude(self, lib, stats, index, nworkers, tier):
+        """exhaustive over the BMP (both hex cases, as value and as key); surrogate pairs: all 2^20 in the thorough tier,
+        row boundaries + 1/16 sample in the quick tier; partitioned over the workers"""
+        case = {"kind": "escapes", "part": index, "nparts": nworkers, "all_pairs": 0 if tier == "quick" else 1}
+        self.last_write(case)
+        self.run_escapes(lib, stats, case)
+
+    def run_escapes(self, lib, stats, case):
+        import ctypes
+        from ..lib import SweepOut
+        so = SweepOut()
+        lib.sweep_unicode_escapes(case["part"], case["nparts"], case["all_pairs"], ctypes.byref(so))
+        stats.inner += int(so.iterations)
+        stats.cls("escape_sweep_code_points", int(so.nontrivial))
+        stats.enumerated_nontrivial += int(so.nontrivial)
+        if so.code:
+            raise Violation("\\u escape of U+%04X (%s hex, as %s): %s" % (so.a, "upper-case" if so.b else "lower-case", "key" if so.c else "value", so.msg.decode()),
+                            key="escape:%d" % so.code, detail={"case": {"kind": "escapes", "part": so.a % case["nparts"], "nparts": case["nparts"], "all_pairs": 1}})
+
     def fix_depth(self, lib, jv):
         """deep chains are generated relative to the limit of the header under test"""
         if jv[0] == "D" and isinstance(jv[2], list):
@@ -73,6 +94,8 @@ class C02(Prop):
         return jv, text
 
     def run_case(self, lib, case, stats):
+        if case.get("kind") == "escapes":
+            return self.run_escapes(lib, stats, case)
         jv, text = self.render(lib, case)
         want = model.expected_dump(jv)
         classes = set()
